@@ -108,7 +108,7 @@ def Code.toks (value : Toks) : Code → Toks
       tq sp "{" ++ sepBy (tq sp ",") (fields.map FieldName.toks) ++ (if rest then tq cs ", . ." else []) ++
       tq sp "} = > {" ++ body.toks value ++ tq sp "} , _ = > {" ++ push.toks value ++ tq sp "} }"
   | .tuple v binders body =>
-    tq cs "# [ allow ( unreachable_patterns ) ] match" ++ v.toks value ++ tq cs "{ (" ++
+    tq cs "# [ allow ( unreachable_patterns ) ] match &" ++ v.toks value ++ tq cs "{ (" ++
       sepBy (tq cs ",") (binders.map Binder.toks) ++ tq cs ") = > {" ++ body.toks value ++
       tq cs "} , _ = > unreachable ! (" ++ tstr cs "Plain tuple match should always succeed" ++ tq cs ") , }"
   | .range sp v e push =>
@@ -121,10 +121,10 @@ def Code.toks (value : Toks) : Code → Toks
   | .regex sp v pat push =>
     tq sp "{ use : : assert_struct : : Like ; let re =" ++ supportPath sp ++ tq sp "Regex : : new (" ++
       tstr cs pat ++ tq sp ") . expect ( concat ! (" ++ tstr sp "Invalid regex pattern: " ++ tq sp "," ++
-      tstr cs pat ++ tq sp ") ) ; if !" ++ v.toks value ++ tq sp ". like ( & re ) {" ++
+      tstr cs pat ++ tq sp ") ) ; if ! (" ++ v.toks value ++ tq sp ") . like ( & re ) {" ++
       push.toks value ++ tq sp "} }"
   | .like sp v e push =>
-    tq sp "{ use : : assert_struct : : Like ; if !" ++ v.toks value ++ tq sp ". like ( &" ++ e.toks ++
+    tq sp "{ use : : assert_struct : : Like ; if ! (" ++ v.toks value ++ tq sp ") . like ( &" ++ e.toks ++
       tq sp ") {" ++ push.toks value ++ tq sp "} }"
   | .closure sp v e push =>
     tq sp "{ if !" ++ supportPath sp ++ tq sp "check_closure_condition (" ++ v.toks value ++ tq sp "," ++
@@ -215,6 +215,8 @@ def Expansion.toks (value : Toks) (x : Expansion) : Toks :=
     tq cs "const __PATTERN_TREE : &" ++ supportPath cs ++ tq cs "PatternNode = &" ++ nodeIdent x.root ++ tq cs ";" ++
     tq cs "let mut __report =" ++ supportPath cs ++ tq cs "ErrorReport : : new ( : : std : : env ! (" ++
     tstr cs "CARGO_MANIFEST_DIR" ++ tq cs ") , : : std : : file ! ( ) , ) ;" ++
+    (if (x.body.toks value).isEmpty then []
+     else tq cs "let __assert_struct_value = & (" ++ value ++ tq cs ") ;") ++
     x.body.toks value ++
     tq cs "if ! __report . is_empty ( ) { panic ! (" ++ tstr cs "{}" ++ tq cs ", __report ) ; } } ; __assert_struct_result }"
 
